@@ -85,7 +85,11 @@ def optRepl : Env → Str → Out := fun _ m =>
   | _ => .ok ('<' :: m ++ ['>'])
 
 def cfgOf (name : String) : Cfg :=
-  let base := if name.startsWith "percent" then delimCfg '%' else defaultCfg
+  let base := if name.startsWith "percent" then delimCfg '%'
+    else if name == "strict" then patCfg matchStrictG
+    else if name == "angle" then patCfg matchAngleG
+    else if name == "dbl" then patCfg matchDblG
+    else defaultCfg
   let hasSubs := name == "subs" || name == "percent+subs" || name == "subs+repl"
   let hasRepl := name == "repl" || name == "percent+repl" || name == "subs+repl"
   { base with subsFunc := if hasSubs then some optSubs else none,
